@@ -6,24 +6,35 @@ CFG = {
     "stateful": True,
     "trivial_prefix": ("-",),
     "rule": "one seeded many-goroutine schedule per case on a real Vaxis over the fake console: post (1-8 posters x 1-200 posts "
-            "mixing PostEvent/PostEventBlocking/SyncFunc/Resize, queue capacity 1..64 or default, 0-60 keys of terminal input, a "
-            "consumer), suspend (1-4 Suspend/Resume cycles under posters and input incl. lone ESC around the 10 ms timer), "
-            "fullclose (Close with a full queue and pending input), sigclose (Close from the input goroutine's signal arm), "
-            "dblclose (concurrent Close), race (the post/suspend and dblclose schedules in a child built with -race); "
-            "non-trivial = every schedule line, distinct by its parameters",
-    "trusted_base": ["the trace conditions checked by the driver (per-poster order, no duplicate, nothing invented, no blocking post "
-                     "missing) are the observable consequences of the queue LTS; the interleaving itself is not observable without yield points",
+            "mixing PostEvent/PostEventBlocking/SyncFunc/Resize, concurrent CursorPosition/ClipboardPop and unsolicited replies, queue "
+            "capacity 1..64 or default, 0-60 keys, a consumer), suspend (1-4 Suspend/Resume cycles under posters and input incl. lone ESC "
+            "around the 10 ms timer), cycles (sessions S/R/C of a sequential main goroutine on a tty-like console, the shutdown DA1 reply "
+            "arriving early / at once / late; returned? and goroutines gone? after every Suspend and Close, compared with the LTS), forced "
+            "(schedules forced through the verifC10 yield points — second Close in the first's window, Close during input handling, kill "
+            "signal with sequences pending, full queue — replayed label by label on the LTS), fullclose, sigclose, dblclose, race (the "
+            "post/suspend and dblclose schedules in a child built with -race); non-trivial = every schedule line, distinct by its parameters",
+    "trusted_base": ["the trace conditions checked by the driver for post schedules (per-poster order, no duplicate, nothing invented, no blocking post "
+                     "missing) are the observable consequences of the queue LTS",
+                     "replayTrace: parser steps, the terminal's reply and the application's receives have no yield point and are hidden labels (weak trace inclusion)",
+                     "stack-dump classification of library goroutines (ansi.(*Parser).run, openTty.func1); bounds 3 s / 0.7 s for 'returns'",
                      "Go race detector (supporting evidence only; a reported race is treated as a violation)"],
     "assumptions": ["the terminal answers the DA1 query written by Suspend",
                     "real time abstracted (time-outs / the 10 ms escape timer are nondeterministic labels)",
-                    "weak fairness of the Go scheduler for the shutdown progress statement"],
-    "level_text": "Concurrency, message level: fifo_per_poster, blocking_post_never_dropped, delivered_sublist_posted proved for all "
-                  "interleavings of the queue LTS; lock_order proved over the regenerated lock sites; shutdown_completes proved under "
-                  "explicit hypotheses (room in the queue, a single Close caller that is not the input goroutine); F13, F33, F53 are "
-                  "reachable stuck/panicking states of the shutdown LTS (witnesses) and are reproduced on the real code.",
-    "level_note": "Partial by nature: data-race freedom (Go memory model) is outside any Lean theorem; -race stress runs are supporting "
-                  "evidence for the correspondence only. Goroutine-leak freedom is checked by the harness (stack dump), not proved, beyond "
-                  "the LTS statement that all modelled goroutines reach done.",
+                    "Suspend/Resume are called by one (main) goroutine sequentially; Close by any goroutine",
+                    "a consumer that keeps receiving, or room in the queue for the events in flight (otherwise F53), and Close not on the input goroutine (otherwise F13)"],
+    "level_text": "Concurrency, message level. Queue: fifo_per_poster, blocking_post_never_dropped, delivered_sublist_posted for all interleavings; the same "
+                  "over ONE LTS with all actors (posters, queries over the hand-off channels with their real capacities, input goroutine, application): "
+                  "no lost event, input never blocked by a hand-off, no deadlock while the application receives. Shutdown: a variant function strictly "
+                  "decreases on every scheduler label in every state (no schedule runs for ever, no fairness needed); under the protocol invariant "
+                  "(any number of Close callers, Suspend/Resume cycles by induction over histories) EVERY maximal run ends with all callers returned, "
+                  "parser and input goroutine done, chQuit closed once; chQuit closed at most once in every reachable state unconditionally (F33 fixed). "
+                  "lock_order over all lock sites; goroutine / timer / mutex / lock-site / channel inventory complete (extractor). F13, F53 remain "
+                  "reachable stuck states (witnesses), reproduced on the real code incl. through forced schedules.",
+    "level_note": "Partial by nature: data-race freedom (Go memory model) is outside any Lean theorem; -race stress runs are supporting evidence for the "
+                  "correspondence only. Goroutine-leak freedom is a theorem of the LTS (goroutines done at rest) and checked on the real code by stack "
+                  "dumps after every Suspend/Close of the cycles sessions. The statement order of Suspend and Resume's clearing of `suspended` are "
+                  "Gen facts the theorems need. A Resume while the previous input goroutine is still draining, the escape timer (C08) and the "
+                  "spinner loop are not components of the shutdown LTS.",
     "technique": "Lean 4 invariants over labelled transition systems; go/ast extractor (lock sites, channel capacities); seeded stress harness, -race child",
     "timeout": 3000,
 }
